@@ -422,8 +422,15 @@ theorem fuel_decreases {p : Params} {s s' : State} {l : Label} {e : Nat} (h : In
       simp only [step] at hs
       split at hs
       · next hp =>
-        injection hs with hs; subst hs
-        simp [fuel, IW.emitted, hp, pcRank, hsub, he]
+        split at hs
+        · -- second half of a completing tick (the unsubscriber ran between the halves)
+          injection hs with hs; subst hs
+          simp [fuel, IW.emitted, hp, pcRank, hsub, he]
+        · split at hs
+          · -- first half needs a subscribed observer
+            next hc => simp [delivers, hsub] at hc
+          · injection hs with hs; subst hs
+            simp [fuel, IW.emitted, hp, pcRank, hsub, he]
       · next hp =>
         split at hs
         · next w' hw' =>
